@@ -121,7 +121,7 @@ def timeouts(plan, sched):
         if mode == "timeout":
             end = ends[k] if k < len(ends) else "pollret-expired"
             k += 1
-            out.append(2000 if end == "pollret-ready" else SHORT[i % len(SHORT)])
+            out.append(8000 if end == "pollret-ready" else SHORT[i % len(SHORT)])
         else:
             out.append(0)
     return out
@@ -162,7 +162,7 @@ def judge(case, v):
             d = case.get("tmo", [4] * len(calls))[i]
             if c["res"] == "empty" and c["elapsed_us"] < int(d) * 1000:
                 return "try_recv_timeout(%s ms) reported 'empty' after only %d us" % (d, c["elapsed_us"]), v.get("matched")
-            if v.get("matched") and d >= 2000 and c["res"] != "empty" and c["elapsed_us"] > 1500000:
+            if v.get("matched") and d >= 8000 and c["res"] != "empty" and c["elapsed_us"] > 6000000:
                 return "try_recv_timeout(%s ms) did not return early although a message/disconnection was there (%d us)" % (
                     d, c["elapsed_us"]), True
     if (not v.get("matched")) and "in the kernel" in v.get("why", ""):
